@@ -12,7 +12,7 @@
 (* crate) satisfies it.  The reciprocal relation is checked likewise       *)
 (* against native division.                                                *)
 (***************************************************************************)
-EXTENDS Ops, Json
+EXTENDS Mech, Json
 CONSTANTS K
 
 VARIABLES n, sc, p, m, k, neg, ph
@@ -49,6 +49,27 @@ UniqueAndRight == ph = 2 /\ (k = 3 \/ ~neg) =>
      t >= 0 => ((RootRoundedOK(X, k, p, m, neg, Grid(t)) = OK) <=> (t = Expected))
 \* the root has exactly p digits before rounding: 10^(p-1) <= T < 10^p
 RootDigits == ph = 2 => T >= Pow10Tab[p] /\ T < Pow10Tab[p + 1]
+
+\* the crate's own routines (transcribed in Mech) return that grid point
+RoutinesRight == ph = 2 /\ (k = 3 \/ ~neg) =>
+  LET want == Mk(IF neg THEN -1 ELSE 1, NatOf(Expected), USc)
+      got == IF k = 2 THEN SqrtRoutine(X, p, m) ELSE CbrtRoutine(Mk(IF neg THEN -1 ELSE 1, NatOf(n), sc), p, m)
+  IN ValEq(got, want)
+
+\* the sticky path: a perfect k-th power plus one unit thirty places down - the root is n "and a bit", so only the
+\* modes that move away from zero may leave n; routine and relation must agree on that (n doubles as the root here)
+StickyRight == ph = 1 /\ n < 100 /\ n % 13 = 3 =>
+  \A kk \in {2, 3}, pp \in 2..3, mm \in Modes, sg \in {-1, 1} :
+    (kk = 3 \/ sg = 1) =>
+      LET pw == IF kk = 2 THEN n * n ELSE n * n * n
+          x == Mk(sg, NAdd(Shl(NatOf(pw), 30), One), 30)
+          away == CASE mm = "Up" -> TRUE [] mm = "Ceiling" -> sg = 1 [] mm = "Floor" -> sg = -1 [] OTHER -> FALSE
+          usc == pp - Len(NatOf(n))                       \* scale of the unit of the pp-th digit of n
+          want == DAdd(Mk(sg, NatOf(n), 0), IF away THEN Mk(sg, One, usc) ELSE DZero)
+          got == IF kk = 2 THEN SqrtRoutine(x, pp, mm) ELSE CbrtRoutine(x, pp, mm)
+      IN /\ ValEq(got, want)
+         /\ RootRoundedOK(DAbs(x), kk, pp, mm, sg < 0, DAbs(got)) = OK
+         /\ RootRoundedOK(DAbs(x), kk, pp, mm, sg < 0, DAbs(IF away THEN Mk(1, NatOf(n), 0) ELSE DAdd(Mk(1, NatOf(n), 0), Mk(1, One, usc)))) # OK
 
 \* reciprocal: y accepted iff less than one unit of the p-th digit from 1/x, exact when 1/x terminates within p digits
 InvE == AdjInv(X)
